@@ -110,4 +110,12 @@ pub fn run(rep: &mut Rep) {
     wa.pub_ack_variants = (0..9).map(|r| (r as u8, (r % 2) as u8)).collect();
     let walks = if rep.quick() { 150 } else { 3000 };
     walk_world(rep, "walk", walks, if rep.quick() { 300 } else { 800 }, &|s| World::boot(WorldCfg { seed: s, order: (s % 4) as u8, ..Default::default() }), &wa);
+    // the handshake carried across connections of the same Context
+    let mut wr = wa.clone();
+    wr.terms = vec![TermAct::Eof, TermAct::ReadErr, TermAct::ServerDisconnect { reason: 0x8b, form: 2, props: false }];
+    wr.reconnect = true;
+    wr.drops = true;
+    wr.writer_stall = false;
+    rep.note("walks across connections: after EOF / read error / server DISCONNECT the same Context is connected again (session resumed, resumed under Receive Maximum 2, expired, or no disconnection recorded) and the walk goes on: re-sent handshakes finish with the acknowledgements of the new connection, new publishes follow the handshake rules");
+    walk_world(rep, "walkrc", walks, if rep.quick() { 300 } else { 800 }, &|s| World::boot(WorldCfg { seed: s, sei: if s % 4 == 0 { None } else { Some(3600) }, order: (s % 4) as u8, ..Default::default() }), &wr);
 }
